@@ -21,9 +21,13 @@ def _read_all(fd):
 def expand(history, ops, apply_op, depth_left, stats=None):
     """Runs in a process whose state is 'after history'.  For every op forks a
     child that applies it, records the observation and recursively expands.
-    Returns a list of (history_tuple, observation)."""
+    `ops` is a list of operations, or a list of such lists (one per remaining
+    level).  Returns a list of (history_tuple, observation)."""
     records = []
-    for op in ops:
+    per_level = bool(ops) and isinstance(ops[0], (list, tuple))
+    here = ops[0] if per_level else ops
+    below = ops[1:] if per_level else ops
+    for op in here:
         r, w = os.pipe()
         pid = os.fork()
         if pid == 0:
@@ -37,7 +41,7 @@ def expand(history, ops, apply_op, depth_left, stats=None):
                     obs = ("HARNESS-ERROR", repr(e))
                 recs = [(h2, obs)]
                 if depth_left > 1:
-                    recs += expand(h2, ops, apply_op, depth_left - 1)
+                    recs += expand(h2, below, apply_op, depth_left - 1)
                 data = pickle.dumps(recs, protocol=4)
                 view = memoryview(data)
                 off = 0
